@@ -82,6 +82,29 @@ def ground_axioms(enc, ob):
                     f"(=> (and (>= {N(x1)} 0.0) (>= {N(x2)} 0.0)) (= (= {N(i1)} {N(x2)}) (= {N(i2)} {N(x1)})))")
                 add("order form of the inverse pair: pow(x,p) < y <=> x < pow(y,1/p)",
                     f"(=> (and (>= {N(x1)} 0.0) (>= {N(x2)} 0.0)) (= (< {N(i1)} {N(x2)}) (< {N(x1)} {N(i2)})))")
+    # Lipschitz bounds between applications with the same constant exponent (mean value theorem on a guarded range):
+    #   p >= 1: |x^p - y^p| <= p M^(p-1) |x - y|  for 0 <= x, y <= M ;  p < 1: |x^p - y^p| <= p m^(p-1) |x - y|  for x, y >= m
+    for a in range(len(pows)):
+        for b in range(a + 1, len(pows)):
+            (x1, p1), i1 = pows[a]
+            (x2, p2), i2 = pows[b]
+            v1, v2 = cval(nodes, p1), cval(nodes, p2)
+            if v1 is None or v1 != v2 or v1 <= 0 or x1 == x2:
+                continue
+            d = f"(- {N(x1)} {N(x2)})"
+            dr = f"(- {N(i1)} {N(i2)})"
+            absd = f"(ite (>= {d} 0.0) {d} (- {d}))"
+            absr = f"(ite (>= {dr} 0.0) {dr} (- {dr}))"
+            if v1 >= 1:
+                M = 4.0
+                L = v1 * M ** (v1 - 1) * 1.0000001
+                add("pow Lipschitz on [0,4] for exponent >= 1 (mean value theorem)",
+                    f"(=> (and (>= {N(x1)} 0.0) (>= {N(x2)} 0.0) (<= {N(x1)} {fr(M)}) (<= {N(x2)} {fr(M)})) (<= {absr} (* {fr(L)} {absd})))")
+            else:
+                for m in (1e-3, 1e-6):
+                    L = v1 * m ** (v1 - 1) * 1.0000001
+                    add("pow Lipschitz on [m,inf) for exponent < 1 (mean value theorem), m = 1e-3 and 1e-6",
+                        f"(=> (and (>= {N(x1)} {fr(m)}) (>= {N(x2)} {fr(m)})) (<= {absr} (* {fr(L)} {absd})))")
     apps = {}
     for f, a, i in enc.uf_apps:
         apps.setdefault(f, []).append((a, i))
